@@ -63,6 +63,8 @@ def run_loop_with_spec(it, node, frame, spec, kind, iterable=None):
     p = it.p
     qn = '%s:%d' % spec.key
     # ---- ghost initialisation and loop-kind specific state
+    for (name, expr) in spec.consts:
+        frame.locals[name] = eval_in(it, frame, expr)
     for (name, desc, init, step) in spec.ghost:
         frame.locals[name] = eval_in(it, frame, init)
     src_elt = None
